@@ -255,10 +255,12 @@ func (o UnmarshalOptions) unmarshalMap(b []byte, wtyp protowire.Type, mapv proto
 		err = errUnknown
 		switch num {
 		case genid.MapEntry_Key_field_number:
-			key, n, err = o.unmarshalScalar(b, wtyp, keyField)
+			var k protoreflect.Value
+			k, n, err = o.unmarshalScalar(b, wtyp, keyField)
 			if err != nil {
 				break
 			}
+			key = k
 			haveKey = true
 		case genid.MapEntry_Value_field_number:
 			var v protoreflect.Value
